@@ -311,7 +311,7 @@ def rule_a(ctx):
     rep = ctx.report
     sites = 0
     for mod, fn in ctx.repo.all_functions():
-        if isinstance(fn, ast.Lambda):
+        if isinstance(fn, ast.Lambda) or ctx.repo.is_new_private_helper(fn):
             continue
         for call in A.walk_local(fn):
             if not (isinstance(call, ast.Call) and call.args and isinstance(call.args[0], ast.Starred)
@@ -596,24 +596,21 @@ def rule_ks(ctx):
             for f in fwd:
                 n += 1
                 checked = False
-                for s in A.walk_stmts(arm['body']):
-                    if isinstance(s, ast.If) and s.lineno <= f.lineno:
-                        t0, neg0 = A.strip_not(s.test)
-                        c = t0
-                        if isinstance(c, ast.Compare) and len(c.ops) == 1 and A.is_name(c.left, item) \
-                                and isinstance(c.ops[0], (ast.In, ast.NotIn)) \
-                                and 'keys' in A.src(c.comparators[0]) and 'input_dataset' not in A.src(c.comparators[0]):
-                            absent_when_true = isinstance(c.ops[0], ast.NotIn) != neg0
-                            refusing = s.body if absent_when_true else s.orelse
-                            answering = s.orelse if absent_when_true else s.body
-                            raises = any(isinstance(x, ast.Raise) for x in refusing)
-                            in_answering = any(x is f for st_ in answering for x in ast.walk(st_)) or (
-                                not answering and not any(x is f for st_ in refusing for x in ast.walk(st_)))
-                            if raises and in_answering:
-                                checked = True
-                    if isinstance(s, ast.Call) and isinstance(s.func, ast.Attribute) and s.func.attr == 'index' \
-                            and 'keys' in A.src(s.func.value) and s.args and A.is_name(s.args[0], item):
+                for test, truth in flow.guards_of(f, fn):
+                    t0, neg0 = A.strip_not(test)
+                    eff = (truth != neg0)
+                    if isinstance(t0, ast.Compare) and len(t0.ops) == 1 and A.is_name(t0.left, item) \
+                            and isinstance(t0.ops[0], (ast.In, ast.NotIn)) and 'keys' in A.src(t0.comparators[0]) \
+                            and 'input_dataset' not in A.src(t0.comparators[0]):
+                        present = (isinstance(t0.ops[0], ast.In) and eff) or (isinstance(t0.ops[0], ast.NotIn) and not eff)
+                        if present:
+                            checked = True
+                for s_ in A.walk_stmts(arm['body']):
+                    if isinstance(s_, ast.Call) and isinstance(s_.func, ast.Attribute) and s_.func.attr == 'index' \
+                            and 'keys' in A.src(s_.func.value) and s_.args and A.is_name(s_.args[0], item):
                         checked = True
+                # ... and an absent key is refused with an exception somewhere in the arm
+                checked = checked and any(isinstance(x, ast.Raise) for x in A.walk_stmts(arm['body']))
                 rep.ob('KS', K.key(cls, '__getitem__', 'str-key-validated-against-own-keys'), checked, f,
                        '' if checked else 'keys() of this stage is a selection of the input keys, but ds[key] forwards any '
                        'string to the input: a key that the stage does not list is answered with an example instead of a '
